@@ -514,10 +514,10 @@ def carg(a):
 
 def render(table, api):
     out = ["(* GENERATED by translators/synced.py from casbin/synced_enforcer.py and the plain Enforcer classes — do not edit *)",
-           "From Coq Require Import List String Bool.",
+           "From Coq Require Import List Bool.",
            "From PyCasbin Require Import SyncedBase.",
            "Import ListNotations.",
-           "Local Open Scope string_scope.",
+           "Local Open Scope text_scope.",
            "",
            "Definition synced_table : list wrapper := ["]
     rows = []
